@@ -1,5 +1,5 @@
 # shared driver for the container linearizability checks (C10, C12, C13): runs h_cont scenarios, validates histories by TLC
-import os, json, vlib
+import os, re, json, vlib
 SD = os.path.join(vlib.SPEC, 'cont')
 
 
@@ -48,3 +48,33 @@ def run_scenarios(res, pid, module, scenarios, n, seed, what):
     res.exhaustive = False
     res.assumptions += ['real-code schedules: seeded random cooperative interleavings at atomic-access granularity over every atomic of the container (not TLC-enumerated)',
                         'sequentially consistent replay; 2-4 threads; <= 6 operations per thread']
+
+
+def replay_aggregator(res, pid, cfgs):
+    """every edge of AggrCore (cfg, threads, ops per thread) replayed on the real aggregator_generic; TraceAggr is the verdict"""
+    exe = vlib.build_harness('h_aggr', ['cont/h_aggr.cpp'])
+    os.makedirs(os.path.join(vlib.BUILD, 'graphs'), exist_ok=True)
+    for cfg, nth, nops in cfgs:
+        tag = pid.lower() + '-' + cfg[:-4]
+        dot = os.path.join(vlib.BUILD, 'graphs', tag + '.dot')
+        r = vlib.tlc(SD, 'AggrCore', cfg, dump=dot, deadlock=False, timeout=3000, xmx='24g'); res.add_tlc(r, 'AggrCore:' + cfg); vlib.tlc_must_hold(r, cfg)
+        if r.violation:
+            raise vlib.HarnessFailure('AggrCore model violates %s' % r.violation)
+        nodes, edges, init = vlib.parse_dot(dot, ['pending', 'busy', 'status', 'nxt'], raw=True); os.unlink(dot)
+
+        def conv(v):
+            f = v.split('\x1f'); st = dict(re.findall(r'(\d+) :> (\d+)', f[2])); nx = dict(re.findall(r'(\d+) :> (\d+)', f[3]))
+            return '%s,%s|%s' % (f[0].strip(), f[1].strip(), ','.join('%s/%s' % (st[k], nx[k]) for k in sorted(st, key=int)))
+        nodes = {k: conv(v) for k, v in nodes.items()}
+        paths, cov, tot = vlib.edge_cover(nodes, edges, init)
+        sched = os.path.join(vlib.BUILD, 'graphs', tag + '.sched'); vlib.write_schedules(paths, sched)
+        sums, tfs = vlib.run_harness_parallel(lambda part, tf: [exe, part, tf, str(nth), str(nops)], sched, tag, timeout=2500)
+        ssum = vlib.sum_dicts(sums); os.unlink(sched)
+        vlib.validate_and_report(res, SD, 'TraceAggr', 'TraceAggr.cfg', vlib.collect_traces(tfs), tag,
+                                 lambda tr: 'replay of AggrCore on the real aggregator: an operation was handled twice / never / outside a handler invocation, two handlers overlapped, or a caller returned before its operation was handled: ' + json.dumps([e for e in tr if not e['e'].startswith('#')])[:1200],
+                                 sig_fn=lambda tr: 'aggregator:' + ('stuck' if any(e['e'] == 'Stuck' for e in tr) else 'protocol'))
+        vlib.log('%s: %d states, %d/%d edges in %d schedules, %d real steps, drift %d, mismatch %d' % (tag, r.distinct, cov, tot, len(paths), ssum['steps'], ssum['drift'], ssum['state_mismatch']))
+        res.extra['spec_edges_replayed'] = res.extra.get('spec_edges_replayed', 0) + cov; res.extra['spec_edges_total'] = res.extra.get('spec_edges_total', 0) + tot
+        res.extra['drift_steps'] = res.extra.get('drift_steps', 0) + ssum['drift'] + ssum['state_mismatch']
+        if ssum['drift'] + ssum['state_mismatch']:
+            print('SPEC-DRIFT property=%s aggregator replay: %d paths disagree with AggrCore.tla' % (pid, ssum['drift'] + ssum['state_mismatch']))
